@@ -40,7 +40,12 @@ R4 executor: every step runs as a task wrapped by `_handle_exception`; its gener
    branch atoms (sfverif.facts) and the edge taken *exactly* for FAILED/CANCELLED is looked up on either side (swapped
    branches under `not` / `not in`, guard clauses, `and`-joined with the termination test); any further conjunct on that
    edge, or no such edge, is a violation.  `closed()` may return the flag through temporaries (reaching definitions, bound
-   3) as long as no suspension point lies between the copy and the return and every path returns.
+   3) as long as no suspension point lies between the copy and the return and every path returns.  An operand of a Status
+   test or of the `len(self.received) == len(self.workflow.output_ports)` test (here and in R5) may be held in a plain
+   temporary (`_n = len(self.received)` / `if _n == ...`): the test is read through the local's single reaching definition
+   (a plain assignment evaluated on every path to the test, bound 3) provided nothing between the assignment and the test
+   can change what the expression reads (only `pass` / logging / await-free statements calling pure builtins and storing
+   into nothing it mentions); a temporary taken before `self.received.append` / `statuses.append` is a different test.
 R5 `ExecuteStep.run` (its task loop, in run() itself or moved wholesale into a method run() awaits -- followed through
    the resolved `self.m(...)` call, bound 2; the recorded list is then the one the method returns into the list run()
    hands to `_reduce_statuses`): both places that record a status (termination branch, job-result branch) cancel
